@@ -199,6 +199,21 @@ def build(tier, seed, known):
         "parser: parameter names extracted from arbitrary token text keep identifier characters only", "token text any Unicode len<=%d" % idn)
     src += "REF_lam = transpile_struct_det(STRUCT.Lambda(7, BODY))\n"
     add("lambda_arity", "ident", "k: int", ["0 <= k <= 12"], ["out = transpile_struct_det(STRUCT.Lambda(k, BODY))", "return ast_confirm(out, REF_lam)"], 200, "Lambda lowering: the arity appears only as an int constant", "arity 0..12 (realisation-exhausted)")
+    # ---- raw whole programs: every NAME token of the generated module is template vocabulary or a VAR_/_lambda_ identifier ----
+    src += "vocabulary()\n"
+    add("raw_len1", "raw", "s: str", ["len(s) == 1", "s in CP or s in ADV"], ["try:", "    out = transpile_det(s)", "except Exception:", "    return note('transpile raised')", "return names_from_vocabulary(out)"], 600,
+        "all one-character programs: names of the generated module come from the template vocabulary", "the character in the code page or the adversarial set (realisation-exhausted)")
+    FIRSTS = "[({@λƛ'µ⟨])};⟩|vX" + chr(92) + chr(96) + "‛→←#k⁺«»1.°&~ß₌≬"
+    for fi, fc in enumerate(FIRSTS if tier == "thorough" else "@→(" + chr(92)):
+        add("raw_len2_first%d" % fi, "raw", "c: str", ["len(c) == 1", "c in CP or c in ADV"], ["try:", "    out = transpile_det(%r + c)" % fc, "except Exception:", "    return note('transpile raised')", "return names_from_vocabulary(out)"], 600,
+            "all two-character programs starting with %r" % fc, "second character in the code page or the adversarial set (realisation-exhausted)")
+    src += "NAMECH = '^$%+-.*!?=<>~' + 'aZ_9' + chr(10) + chr(13) + chr(0x2028) + chr(34) + chr(39)\nREF_rawcall = transpile_det('@aa;')\nREF_rawdef = transpile_det('@aa|+;')\n"
+    add("raw_fn_call_name2", "raw", "c: str, d: str", ["len(c) == 1", "len(d) == 1", "c in NAMECH", "d in NAMECH"],
+        ["try:", "    out = transpile_det('@' + c + d + ';')", "except Exception:", "    return note('transpile raised')", "return ast_confirm(out, REF_rawcall) or explain('function-call name characters changed the code shape')"], 600,
+        "whole programs @cd; : AST and token sequence equal to those of @aa; with VAR_ tails blanked", "both name characters over operators, quotes, line breaks and identifier characters (realisation-exhausted)")
+    add("raw_fn_def_name2", "raw", "c: str, d: str", ["len(c) == 1", "len(d) == 1", "c in NAMECH", "d in NAMECH"],
+        ["try:", "    out = transpile_det('@' + c + d + '|+;')", "except Exception:", "    return note('transpile raised')", "return ast_confirm(out, REF_rawdef) or explain('function-definition name characters changed the code shape')"], 600,
+        "whole programs @cd|+; : AST and token sequence equal to those of @aa|+;", "both name characters over operators, quotes, line breaks and identifier characters (realisation-exhausted)")
     # twins
     add("twin_string", "string", "p: str", ["len(p) == 1", "chr(96) not in p", "chr(92) not in p"],
         ["out = transpile_det(chr(96) + p + chr(96), False)", "return code_ok(out, REF_str_top_len1_raw, 'QZQ', 'strbody') and p != chr(34)"], 120, "reachability twin", "", "refuted")
